@@ -172,6 +172,7 @@ class ImapSession:
         # view-sanity monitor (C01, always on): size of the session's view as
         # told by the server; None = no mailbox selected
         self.view_n = None
+        self.view_flags = None  # per position: the flags this session was last told (None = never told), C04's belief monitor
         self._selecting = {}  # tag -> True for SELECT/EXAMINE in flight
         self._closing = set()  # tags of CLOSE/UNSELECT in flight
         self.view_errors = []
@@ -187,24 +188,39 @@ class ImapSession:
             if r.name == "EXISTS":
                 if self.view_n is not None and r.num < self.view_n and not self._selecting:
                     self.view_errors.append(f"{self.name}: EXISTS {r.num} below the current view size {self.view_n}")
+                if self.view_flags is None or self._selecting or r.num < len(self.view_flags):
+                    self.view_flags = [None] * r.num  # a (re-)selection starts a new view
+                else:
+                    self.view_flags.extend([None] * (r.num - len(self.view_flags)))
                 self.view_n = r.num
             elif r.name == "EXPUNGE":
                 if self.view_n is not None and 1 <= r.num <= self.view_n:
                     self.view_n -= 1
+                    if self.view_flags is not None and r.num <= len(self.view_flags):
+                        del self.view_flags[r.num - 1]
                 elif not self._selecting:  # (while a SELECT is in flight the data may still concern the previous mailbox)
                     self.view_errors.append(f"{self.name}: EXPUNGE {r.num} outside the view (size {self.view_n})")
             elif r.name == "FETCH":
                 if (self.view_n is None or not (1 <= r.num <= self.view_n)) and not self._selecting:
                     self.view_errors.append(f"{self.name}: FETCH {r.num} outside the view (size {self.view_n})")
+                elif self.view_flags is not None and 1 <= r.num <= len(self.view_flags) and not self._selecting:
+                    try:
+                        d_ = dict(r.data)
+                    except Exception:
+                        d_ = {}
+                    if "FLAGS" in d_:
+                        self.view_flags[r.num - 1] = (sorted(str(f) for f in d_["FLAGS"] if str(f) not in ("\\Recent", "unseen")), d_.get("UID"))
         elif r.kind == "tagged":
             if r.tag in self._selecting:
                 del self._selecting[r.tag]
                 if r.status != "OK":
                     self.view_n = None
+                    self.view_flags = None
             elif r.tag in self._closing:
                 self._closing.discard(r.tag)
                 if r.status == "OK":
                     self.view_n = None
+                    self.view_flags = None
 
     # -- low level
     def feed(self, data: bytes):
